@@ -772,7 +772,22 @@ def stage_linearity(ctx):
                 a, b = 2.0 ** -10 * dy(rng, 0.5, 2), 2.0 ** -10 * dy(rng, -2, 2)
             Ex = calc_field(det, scat, nm, wl, (1, 0), theory=theory).values
             Ey = calc_field(det, scat, nm, wl, (0, 1), theory=theory).values
-            E = calc_field(det, scat, nm, wl, (a, b), theory=theory).values
+            # the same polarisation in the forms the public functions accept: pair, 3-component sequence / array (a, b, 0),
+            # vector-labelled DataArray
+            form = ["pair", "list3", "pair", "ndarray3", "tuple3", "xarray3"][k % 6]
+            if form == "pair":
+                parg = (a, b)
+            elif form == "list3":
+                parg = [a, b, 0]
+            elif form == "tuple3":
+                parg = (a, b, 0.0)
+            elif form == "ndarray3":
+                parg = np.array([a, b, 0.0])
+            else:
+                import xarray as xr
+                parg = xr.DataArray([a, b, 0.0], dims="vector", coords={"vector": ["x", "y", "z"]})
+            ctx.count("lin:polarisation-form:" + form)
+            E = calc_field(det, scat, nm, wl, parg, theory=theory).values
         expect = (a * Ex + b * Ey) / math.hypot(a, b)
         err = relerr(E, expect)
         worst[kind] = max(worst.get(kind, 0.0), err)
@@ -783,7 +798,7 @@ def stage_linearity(ctx):
         if not (err <= TOL_LIN):
             ctx.violation("linearity:%s" % kind.split("-")[0],
                           "field for polarisation (a,b) differs from (a E_x + b E_y)/|(a,b)| (rel %.3g, %s)" % (err, kind),
-                          dict(kind="linearity", theory=kind, a=a, b=b, scatterer=repr(scat), nm=nm, wl=wl, err=err,
+                          dict(kind="linearity", theory=kind, a=a, b=b, pol_form=form, scatterer=repr(scat), nm=nm, wl=wl, err=err,
                                lens_angle=getattr(theory, "lens_angle", None)))
     # the T-matrix theory accepts (1,0) only and refuses everything else (a refusal, not a wrong field)
     det = gen_detector(rng)
